@@ -15,6 +15,8 @@ S64 = S16 + ['í•­', 'í•«', 'í£', 'í¡', 'í', 'ì', 'ì', 'ìœ½', 'â¤', 'ğŸ’
              '\U0001F494', '\U0001F49E', '\U0001F5A4', '\t', '\r', '\u3000', '\u2028', '\u00a0', 'a', '[', '_', '\ufe0f',
              '0', '\u0085']
 S64 = list(dict.fromkeys(S64))
+# line ends and marks as other systems write them, each one symbol: CR LF, lone CR, LF, byte-order mark, NUL
+SCR = ['í˜•', 'í•˜', 'ì•™', 'í˜€', 'ì—‰', '.', 'â™¥', '?', ' ', '\r\n', '\r', '\n', '\ufeff', '\x00']
 
 
 # ------------------------------------------------------------------ comparison of one parse result
@@ -312,9 +314,9 @@ def listing_task(prop, texts, tag):
 def run_c04(tier):
     st = Stats()
     if tier == 'quick':
-        plan = [(S16, 6), (S64, 3)]
+        plan = [(S16, 6), (S64, 3), (SCR, 5)]
     else:
-        plan = [(S16, 7), (S64, 4), (S10, 8)]
+        plan = [(S16, 7), (S64, 4), (S10, 8), (SCR, 7)]
     tasks = []
     for alpha, n in plan:
         tasks += bulk_tasks('C04', alpha, n)
@@ -625,7 +627,7 @@ def run_c08(tier):
     for i in range(0, len(ll), 12):
         tasks.append(('rt', ll[i:i + 12], 0))
     # (b) re-parse clause on the C04 string scope
-    plan = [(S16, 6), (S64, 3)] if tier == 'quick' else [(S16, 7), (S64, 4), (S10, 8)]
+    plan = [(S16, 6), (S64, 3), (SCR, 5)] if tier == 'quick' else [(S16, 7), (S64, 4), (S10, 8), (SCR, 7)]
     for alpha, n in plan:
         tasks += [('bulk',) + t for t in bulk_tasks('C08', alpha, n, track_upto=-1)]
     pumped = pumped_texts(tier)
